@@ -45,17 +45,21 @@ def guard_free(name, model, opts):
     return True
 
 
-def make(rng, tier, tied_stratum=None):
-    name = tied_stratum or NAMES[int(rng.integers(0, len(NAMES)))]
+def make(rng, tier, tied_stratum=None, large=None):
+    name = large or tied_stratum or NAMES[int(rng.integers(0, len(NAMES)))]
     K = int(rng.integers(2, 4))
     D = int(rng.integers(2, 5))
     N = 4 * K * D + int(rng.integers(0, 12))
+    if large:
+        K, D, N = 2, 3, int(rng.integers(18000, 36000))       # a long recording (one slice)
     if name == 'gcacgmm':
         lead = (int(rng.integers(1, 3)),)
     else:
         lead = () if rng.random() < 0.5 else (int(rng.integers(1, 4)),)
     if tied_stratum:
         lead = (int(rng.integers(2, 4)),)
+    if large:
+        lead = () if name != 'gcacgmm' else (1,)
     data = mm.make_data(rng, name, K, D, N, lead, separation=float(rng.choice([1.0, 2.5, 5.0])))
     init = mm.make_init(rng, K, N, lead, 'positive')
     _COUNT[0] += 1
@@ -172,6 +176,8 @@ def cases(rng, tier):
     out = [make(rng, tier) for _ in range(n)]
     for i in range(8 if tier == 'quick' else 60):
         out.append(make(rng, tier, tied_stratum=['cacgmm', 'cwmm', 'gmm', 'gcacgmm'][i % 4]))
+    for i in range(3 if tier == 'quick' else 12):
+        out.append(make(rng, tier, large=['cacgmm', 'gmm', 'cwmm', 'gcacgmm'][i % 4]))
     return out
 
 
